@@ -421,7 +421,9 @@ pub fn cmd_rollbacks(a: &Args) {
 					return;
 				}
 				let ids: Vec<i32> = l.ids.iter().map(|x| *x as i32).collect();
-				let mut beh = simple_beh("C", &["single", "none", "none", "none"], ids.len(), idx % 2);
+				// regimes with explicit frames: Frame Start only (2.2-2.x) and Frame Start + Frame End (3.0+)
+				let reg = if idx % 2 == 0 { "C" } else { "B" };
+				let mut beh = simple_beh(reg, &["single", "none", "none", "none"], ids.len(), idx % 2);
 				// renumber the frames
 				let mut fi = 0usize;
 				let mut last = None;
@@ -444,13 +446,18 @@ pub fn cmd_rollbacks(a: &Args) {
 						beh.hist.pop();
 					}
 				}
-				let built = gen::build_beh(&db, &beh, &GenOpts::new(seed ^ idx as u64, [3, [0u8, 7, 16][idx % 3], 0]));
+				let ver = if reg == "C" { [3, [0u8, 7, 16][idx % 3], 0] } else { [2, [2u8, 5, 200][idx % 3], 0] };
+				let built = gen::build_beh(&db, &beh, &GenOpts::new(seed ^ idx as u64, ver));
 				let g = match real::read_slp(&built.bytes, false, false) {
 					Outcome::Ok(g) => g,
 					_ => return,
 				};
 				let got_ids: Vec<i32> = g.frames.id.values().to_vec();
 				sink.count(crate::util::fnv(&built.bytes), true);
+				// one frame row (hence one mask entry) per frame occurrence in the file
+				if got_ids != ids {
+					sink.report(&viol("rollback_rows", &format!("parsed_game,regime:{}", reg), "mismatch", format!("file has frame ids {:?} but the game's rows are {:?}", ids, got_ids)), &|| json!({"ids": ids}));
+				}
 				for (mode, keep, first) in [("first", Rollbacks::ExceptFirst, true), ("last", Rollbacks::ExceptLast, false)] {
 					let cls = format!("mode:{},parsed_game{}", mode, if cut_last { ",last_frame_unfinished" } else { "" });
 					match guard_plain(|| g.frames.rollbacks(keep)) {
